@@ -213,6 +213,17 @@ LOCATION_SCHED = [b"http://127.0.0.1:70000/next", b"http://127.0.0.1:65536/next"
                   b"http://127.0.0.1:@PORT@/next", b"/next?port=70000", b"http://127.0.0.1:65536", b"http://[::ffff:127.0.0.1]:70000/"]
 
 
+def gen_target_case(k):
+    """every request target of the dictionary on a fixed schedule"""
+    t = TARGETS[k % len(TARGETS)]
+    method = [b"GET", b"POST", b"HEAD", b"OPTIONS"][(k // len(TARGETS)) % 4]
+    m = req(method + b" " + t + b" HTTP/1.1", [b"Host: localhost"])
+    if method == b"POST":
+        m.headers.append(b"Content-Length: 2")
+        m.body = b"ok"
+    return {"segs": [L(m.render())], "shape": ["target_sched"], "reject": False, "control": False}
+
+
 def gen_body_case(k):
     """every malformed JSON / SSE body of the dictionary on a fixed schedule (JSON ones also as a dictable non-JSON type)"""
     specials = [("json", b) for b in JSON_BODIES] + [("dictable", b) for b in JSON_BODIES[:3] + JSON_BODIES[7:8]] + \
